@@ -467,9 +467,16 @@ class Collections:
                 c.nlocal += 1
             a.extend(b)
             return a
+        if isinstance(e, ast.Subscript) and isinstance(e.slice, ast.Constant) and isinstance(e.value, ast.Name):
+            got = self._bucket(e, depth, busy)
+            if got is not None:
+                return got
         if isinstance(e, ast.Subscript) and isinstance(e.slice, ast.Slice) and e.slice.lower is None and e.slice.upper is None and e.slice.step is None:
             return self._describe(e.value, depth - 1, busy)
         if isinstance(e, ast.Call):
+            ms = self._multiset_source(e)
+            if ms is not None and ms[0] == "keys":
+                return self._describe(ms[1], depth - 1, busy) if parent(ms[1]) is not None else self._describe_copy(ms[1])  # the distinct elements
             n = _call_name(e)
             if _is_empty_value(e):
                 return Desc()
@@ -561,6 +568,68 @@ class Collections:
             if r is not None:
                 return self._describe_copy(r)
         return self._root(e)
+
+    def _bucket(self, e: ast.Subscript, depth: int, busy: set) -> Desc | None:
+        """`buckets[c]` where `buckets` is a fixed set of initially empty containers chosen by an index expression when filled
+        (`buckets = ([], [])` / `{True: [], False: []}`;  `buckets[1 if x.flag else 0].append(x)`, `buckets[x.flag].append(x)`):
+        the elements added under an index that equals the constant `c`."""
+        fn = self.fn
+        name = e.value.id
+        defs = fn.reaching(name, e.value)
+        if len(defs) != 1 or defs[0].kind != "assign" or defs[0].value is None:
+            return None
+        v = defs[0].value
+        if isinstance(v, (ast.Tuple, ast.List)) and v.elts and all(_is_empty_value(x) for x in v.elts):
+            slots = list(range(len(v.elts)))
+        elif isinstance(v, ast.Dict) and v.keys and all(isinstance(k, ast.Constant) for k in v.keys) and all(_is_empty_value(x) for x in v.values):
+            slots = [k.value for k in v.keys]
+        else:
+            return None
+        c = e.slice.value
+        if isinstance(v, (ast.Tuple, ast.List)) and isinstance(c, int) and c < 0:
+            c += len(slots)
+        if not any(c == k for k in slots):
+            return None
+        evs = self.events().get(name, [])
+        if not evs or any(not (ev[0] == "add" and ev[1] == "subscript-load") for ev in evs):
+            return None
+        two = len(slots) == 2 and all(any(k == b for k in slots) for b in (0, 1))  # indexable by a bool
+        raw = self._event_contribs(name, [defs[0].stmt], depth, busy | {("ev", name)})
+        if raw.unknown or raw.removals:
+            return None
+        out = Desc()
+        for ci in raw.contribs:
+            key = ci.elt
+            while isinstance(key, ast.Call) and isinstance(key.func, ast.Name) and key.func.id in ("int", "bool") and len(key.args) == 1 and two:
+                key = key.args[0]
+            extra: list | None
+            if isinstance(key, ast.Constant):
+                extra = [] if key.value == c else None
+            elif isinstance(key, ast.IfExp) and isinstance(key.body, ast.Constant) and isinstance(key.orelse, ast.Constant):
+                a, b = key.body.value == c, key.orelse.value == c
+                extra = [] if a and b else [(key.test, True)] if a else [(key.test, False)] if b else None
+            elif two and key is not None:
+                t = fn.type_of(key)
+                ms = list(t[1]) if t[0] == "union" else [t]
+                if isinstance(key, (ast.Compare, ast.BoolOp)) or (isinstance(key, ast.UnaryOp) and isinstance(key.op, ast.Not)) or (ms and all(m[0] == "b" and m[1] == "bool" for m in ms)):
+                    extra = [(key, bool(c))]
+                else:
+                    return None
+            else:
+                return None
+            if extra is None:
+                continue
+            node = ci.node
+            many = isinstance(node, ast.Call) and isinstance(node.func, ast.Attribute) and node.func.attr in ADD_MANY
+            if many:
+                sub = self._describe_copy(ci.value) if ci.value is not None and parent(ci.value) is None else self._describe(ci.value, depth - 1, busy)
+                if sub.unknown or sub.removals:
+                    return None
+                for x in sub.contribs:
+                    out.contribs.append(Contribution(x.elt, x.value, ci.binders + x.binders, ci.conds + extra + x.conds, ci.context, node, "add", "bucket:" + x.how, acc=name))
+            else:
+                out.contribs.append(Contribution(ci.value, None, ci.binders, ci.conds + extra, ci.context, node, "add", "bucket", acc=name))
+        return out
 
     def _record_field(self, e: ast.Attribute, depth: int, busy: set) -> Desc | None:
         """`obj.field` where obj is a local record object whose field is changed in place (`obj.field.add(x)`): what the
@@ -911,6 +980,19 @@ class Collections:
                     src = dv
                     b = Binder(b.target, src, b.loop, b.root, b.site, b.via)
                     c.binders[idx] = b
+            # distinct elements with their multiplicity: Counter(X) / dict.fromkeys(X) iterated directly, by .keys() or by
+            # .items() - every element of X is visited (once); the count is an opaque positive number
+            ca = self._multiset_source(src)
+            if ca is not None:
+                what, inner = ca
+                if what == "items" and isinstance(b.target, (ast.Tuple, ast.List)) and len(b.target.elts) == 2:
+                    c.binders[idx] = Binder(b.target.elts[0], inner, b.loop, False, b.site, b.via)
+                    work.insert(0, c)
+                    continue
+                if what == "keys":
+                    c.binders[idx] = Binder(b.target, inner, b.loop, False, b.site, b.via)
+                    work.insert(0, c)
+                    continue
             # wrappers around the source
             if isinstance(src, ast.Call) and _call_name(src) in COPY_CALLS and len(src.args) == 1:
                 c.binders[idx] = Binder(b.target, src.args[0], b.loop, False, b.site, b.via)
@@ -1038,6 +1120,31 @@ class Collections:
                     nc_ren,
                 )
                 work.insert(0, nc)
+
+    def _multiset_source(self, src: ast.AST) -> tuple[str, ast.AST] | None:
+        """("keys" | "items", X) if `src` iterates the distinct elements of X: Counter(X), dict.fromkeys(X), their .keys() /
+        .items(), or a local bound once to one of these and never changed."""
+        fn = self.fn
+
+        def made_from(x: ast.AST, hops: int = 0) -> ast.AST | None:
+            if isinstance(x, ast.Name) and hops < 3 and (parent(x) is not None or hasattr(x, "_at")):
+                ds = fn.reaching(x.id, x)
+                if len(ds) == 1 and ds[0].kind == "assign" and ds[0].value is not None and x.id not in fn.mutated and x.id not in self.events():
+                    return made_from(ds[0].value, hops + 1)
+                return None
+            if isinstance(x, ast.Call) and len(x.args) == 1 and not x.keywords and (_call_name(x) == "Counter" or fn.lib_name(x.func) == "collections.Counter"):
+                return x.args[0]
+            if isinstance(x, ast.Call) and isinstance(x.func, ast.Attribute) and x.func.attr == "fromkeys" and isinstance(x.func.value, ast.Name) and x.func.value.id in ("dict", "OrderedDict") and len(x.args) == 1 and not x.keywords:  # with a value it is a table, not a set of keys
+                return x.args[0]
+            return None
+
+        if isinstance(src, ast.Call) and isinstance(src.func, ast.Attribute) and src.func.attr in ("items", "keys") and not src.args:
+            inner = made_from(src.func.value)
+            return (src.func.attr, inner) if inner is not None else None
+        if isinstance(src, ast.Call) and not isinstance(src.func, ast.Attribute) or (isinstance(src, ast.Call) and isinstance(src.func, ast.Attribute) and src.func.attr == "fromkeys"):
+            inner = made_from(src)
+            return ("keys", inner) if inner is not None else None
+        return None
 
     def _match_target(self, target: ast.AST, ci: Contribution) -> dict[str, ast.expr] | None:
         # for a, b in <named tuples built as T(x, y)>
